@@ -317,7 +317,7 @@ pub fn gen_script(t: &mut Tape, p: &Profile) -> Script {
         cup,
         storage_init: vec![],
         timings: t.vec_of(4, |t| TimingSpec {
-            kind: t.choose(3) as u8,
+            kind: t.weighted(&[3, 3, 3, 2]) as u8,
             delta_ms: *t.pick(&[3_600_000u64, 0, 1, 1000, 86_400_000]),
             min_wait_ms: t.option(|t| *t.pick(&[0u64, 1, 1000, 60_000])),
         }),
@@ -327,7 +327,7 @@ pub fn gen_script(t: &mut Tape, p: &Profile) -> Script {
         reboot_allowed: t.vec_of(6, |t| (t.flag(), !t.chance(1, 4))),
         http,
         plans: t.vec_of(4, |t| (!t.chance(1, 5), t.choose(3) as u8)),
-        installs: t.vec_of(4, |t| InstallSpec { results: t.vec_of(4, |t| t.weighted(&[4, 1, 2]) as u8), progress: t.vec_of(3, |t| t.choose(101) as f32 / 100.0) }),
+        installs: t.vec_of(4, |t| InstallSpec { results: t.vec_of(4, |t| t.weighted(&[4, 1, 2]) as u8), progress: t.vec_of(4, |t| t.choose(101) as f32 / 100.0), concurrent: if t.chance(1, 4) { 2 } else { 0 } }),
         reboots: t.vec_of(3, |t| !t.chance(1, 4)),
         faults: FaultSpec::default(),
         clock: if p.clock_jumps {
